@@ -271,8 +271,32 @@ class SymText:
         parts.append(self._wrap(cur))
         return parts
 
-    def splitlines(self):
-        raise Unsupported("splitlines")
+    def splitlines(self, keepends=False):
+        """str.splitlines / bytes.splitlines (forks per character on the line-boundary set)."""
+        if self.kind == "str":
+            seps = (10, 11, 12, 13, 0x1C, 0x1D, 0x1E, 0x85, 0x2028, 0x2029)
+        else:
+            seps = (10, 13)
+        lines = []
+        cur = []
+        i = 0
+        n = _len(self.cps)
+        while i < n:
+            c = self.cps[i]
+            zc = _z(c)
+            if _sb(z3.Or(*[zc == s_ for s_ in seps])):
+                end = [c]
+                if i + 1 < n and _sb(zc == 13) and _sb(_z(self.cps[i + 1]) == 10):
+                    end.append(self.cps[i + 1])
+                    i += 1
+                lines.append(self._wrap(cur + (end if keepends else [])))
+                cur = []
+            else:
+                cur.append(c)
+            i += 1
+        if cur:
+            lines.append(self._wrap(cur))
+        return lines
 
     def replace(self, old, new):
         oc = self._other(old)
@@ -628,6 +652,10 @@ def w_axioms(cz):
         W(cz) <= 2,
         z3.Implies(z3.And(cz >= 32, cz < 127), W(cz) == 1),
         z3.Implies(z3.Or(cz < 32, z3.And(cz >= 127, cz < 160)), W(cz) == 0),
+        # individual characters the library itself treats specially (values checked against wcwidth at start-up):
+        # the ellipsis mark, and the Unicode line / paragraph separators that str.splitlines() splits on
+        z3.Implies(cz == 0x2026, W(cz) == 1),
+        z3.Implies(z3.Or(cz == 0x2028, cz == 0x2029), W(cz) == 0),
     )
 
 
@@ -642,7 +670,7 @@ def sym_char_width(ch):
         return SymInt(W(o.z))
     import wcwidth
 
-    return builtins.max(wcwidth.wcwidth(ch), 0)
+    return builtins.max(wcwidth.wcwidth(_chr(o) if _isinstance(o, builtins.int) else ch), 0)
 
 
 # ------------------------------------------------------------------------------------------------------------
